@@ -3,6 +3,21 @@
 import json, subprocess
 
 CHECKS = {
+ "C01": dict(
+   technique="reference-model runtime monitor: generated well-typed programs are compiled by the real compiler in 4 configurations and every execution is judged against an independent source-level interpreter",
+   text="Exploration: ~10^5 generated programs per quick run (expressions, all operators, casts, if/match/blocks, let/let mut, nested assignments, loops, calls, arrays/ranges/tuples/structs/enums), 24-48 boundary-biased argument tuples each, SSA and register form, dedup on and off; values compared through an independent codec and cross-checked with parse_arg / eval / parse_output.",
+   note="Trusted: the reference interpreter (Appendix A of DESIGN.md) and the harness codec/evaluators. Programs beyond the size bounds and argument values not sampled are not covered. Executions touching a listed known finding are skipped and counted.",
+   design="DESIGN.md section 2 / C01"),
+ "C02": dict(
+   technique="reference-model runtime monitor on panic-heavy generated programs: panic flag, reason and start/end line of the reported location are compared with the first failing operation of the reference execution",
+   text="Exploration: panic-heavy generated programs in token-per-line layout (every token on its own line, so the line span identifies the failing node), ~35% of the judged executions panic in the reference semantics, with failing operations in branches, arms, loops, callees, short-circuit operands and compound assignments; 4 configurations.",
+   note="Locations are compared by start/end line only (columns are not modelled). Where Rust-like evaluation order is under-determined (place vs. value of an assignment, struct literal field order) either first failure is accepted.",
+   design="DESIGN.md section 2 / C02"),
+ "C14": dict(
+   technique="reference-model runtime monitor on mutation-heavy generated programs whose main returns all live variables, so any unintended change of any variable is observable",
+   text="Exploration: copies followed by mutation, (compound) assignment through nested index/field accessors with constant and input-dependent indices, inside blocks, branches, arms, loops and callees with mut parameters, shadowing; 4 configurations.",
+   note="Same trusted base as C01. Generator mask in force for known finding KF-C14-1 (printed in the evidence).",
+   design="DESIGN.md section 2 / C14"),
  "C03": dict(
    technique="reference-model runtime monitor: every compiled operator program is executed on enumerated/boundary/random operands and each execution is judged against i128 checked arithmetic",
    text="Exploration with exhaustive sub-spaces: all 2^16 operand pairs of u8/i8 for every operator in all three operand shapes, all source values of 8/16-bit casts and unary operators, boundary cross-products plus random operands for wider types. Observes real compile+evaluate executions only.",
